@@ -15,9 +15,12 @@ def harness(tier, seed):
     viol, samples = [], []
     evals, distinct = 0, set()
     reps = 60 if tier == "quick" else 800
-    for _ in range(reps):
-        n = rng.randint(2, 6)
-        mx = rng.choice([1, 7, 300, 250001, 10 ** 9, 10 ** 12])
+    big = [127, 128, 129, 256, 257] if tier == "quick" else [127, 128, 129, 130, 255, 256, 257, 300]
+    for rep in range(reps + len(big)):
+        # the last few instances have a number of cities at the boundaries of the integer storage types; they get sampled
+        # tours instead of all n! ones
+        n = rng.randint(2, 6) if rep < reps else big[rep - reps]
+        mx = rng.choice([1, 7, 300, 250001, 10 ** 9, 10 ** 12] if n <= 6 else [1, 7, 300, 10 ** 9])
         mode = rng.choice(["sym", "asym", "nearly"])
         m = np.zeros((n, n), np.int64)
         for i in range(n):
@@ -30,7 +33,7 @@ def harness(tier, seed):
             a = rng.randrange(n)
             b = (a + 1 + rng.randrange(n - 1)) % n
             m[a, b] += 1
-        info = {"matrix": m.tolist(), "kind": mode}
+        info = {"matrix": m.tolist() if n <= 6 else f"{n} x {n}, rng seed {seed}, instance {rep}", "kind": mode}
         try:
             inst = Instance("g", 0, m)
         except Exception as ex:
@@ -48,7 +51,15 @@ def harness(tier, seed):
         # (the property asks that every tour lies within the instance's bounds - checked for all n! tours below -, not that
         # the bounds are the sums of row minima / maxima; comparing them with lb / ub here would flag valid weaker bounds)
         obj = TourLength(inst)
-        for p in itertools.permutations(range(n)):
+        def tours():
+            if n <= 6:
+                yield from itertools.permutations(range(n))
+            else:
+                for _k in range(12):
+                    q = list(range(n))
+                    rng.shuffle(q)
+                    yield tuple(q)
+        for p in tours():
             x = np.array(p)
             want = sum(int(m[p[k - 1], p[k]]) for k in range(n))
             got = int(obj.evaluate(x))
@@ -69,5 +80,6 @@ def harness(tier, seed):
     viol = [v for v in viol if not (v[0] in seen or seen.add(v[0]))]
     return {"name": "tsp_instance", "evaluations": evals, "distinct_nontrivial": len(distinct),
             "rule": "generated matrices n <= 6 (symmetric / asymmetric / asymmetric by one unit, values up to 10^12) through the "
-                    "Instance constructor; all n! tours; distinct = distinct matrices",
+                    "Instance constructor; all n! tours; plus matrices with 127..257 cities (storage-type boundaries) with 12 sampled "
+                    "tours each; distinct = distinct matrices",
             "samples": samples, "violations": viol, "exhaustive": False}
